@@ -15,6 +15,7 @@ never yields a wrong in-range target (a saturated intermediate is ≥ VM_MAX_RAM
 exact value). `vmMaxRam`, the register ids and the opcode table are regenerated from the Rust sources.
 -/
 import FuelVerif.Lemmas.Jump
+import FuelVerif.Model.PcSites
 import FuelVerif.Props.C08
 import FuelVerif.Props.C21
 namespace FuelVerif.Alu
@@ -254,6 +255,118 @@ theorem pc_class_table :
     instrTable.all (fun row => (AluOp.ofName row.name).isSome → pcClass row.name == .advancing) = true := by
   decide +kernel
 
+/-! ### static tie: how each of the 127 `impl Execute for op::X` finally updates `$pc` on success
+
+`Gen/PcSites.lean` is regenerated on every run by `tools/gen/pc_sites.py`, which follows every implementation into the
+helper it delegates to and records, per success exit, the ordered `$pc` updates (`inc_pc`, `*pc = …`, frame restore,
+foreign ECAL handler). The theorems below are closed by `decide +kernel` over that COMPLETE table joined with the opcode
+table of `Gen/Instructions.lean`: a helper that loses its final `inc_pc`, gains a second `$pc` update, a new early
+success return without `inc_pc`, a new opcode, a dispatch arm pointing at another op type or a new `$pc` write anywhere in
+fuel-vm/src changes the generated table and breaks one of these proofs. -/
+
+/-- the exit shape the specification demands of an opcode, from the name-based classification `pcClass` -/
+def expectedShape (name : String) : SiteShape :=
+  match pcClass name with
+  | .jump => .jump
+  | .advancing => .advancing
+  | .terminal => if name == "CALL" then .call else if name == "RVRT" then .revert else .ret
+
+/-- the generated site table, the opcode table and the dispatch `match` of `execute_instruction` list the same
+opcodes, each exactly once, and every dispatch arm `Opcode::X => execute_op!(Y)` has `X = Y` -/
+theorem pc_sites_cover_table :
+    pcSites.length = instrTable.length ∧ dispatchArms.length = instrTable.length ∧
+    instrTable.all (fun row => (pcSites.filter (fun s => s.1 == row.name)).length == 1 &&
+                               (dispatchArms.filter (fun a => a.1 == row.name)).length == 1) = true ∧
+    pcSites.all (fun s => (instrTable.filter (fun row => row.name == s.1)).length == 1) = true ∧
+    dispatchArms.all (fun a => a.1 == a.2) = true := by
+  decide +kernel
+
+/-- **every opcode is exactly one of {jump, call, return, revert, advancing}, by the shape of its success exits, and
+it is the one the specification assigns to its name** (`siteShape` is a function, so the classes are disjoint) -/
+theorem pc_sites_shape : pcSites.all (fun s => siteShape s == some (expectedShape s.1)) = true := by
+  decide +kernel
+
+/-- the per-class content of `pc_sites_shape`, spelled out: advancing implementations return `Proceed` and each
+reachable exit performs exactly one own `$pc` update, an `inc_pc`, as its last step; the 12 jumps go through
+`JumpArgs::jump` (untaken: `inc_pc`, taken: `*pc = target_addr`); CALL sets `$pc` to the callee's code start in
+`PrepareCallCtx::prepare_call`; RET/RETD restore the caller's registers when a frame is popped and then `inc_pc`;
+RVRT leaves `$pc` alone -/
+theorem pc_sites_by_class :
+    pcSites.all (fun s => pcClass s.1 == .advancing →
+      (s.2.1 == "Proceed" && !(enabledExits s).isEmpty && (enabledExits s).all (·.isAdvancing))) = true ∧
+    pcSites.all (fun s => pcClass s.1 == .jump →
+      (s.2.1 == "Proceed" && s.2.2.all (·.isJumpExit) && s.2.2.length == 2)) = true ∧
+    (pcSites.filter (fun s => pcClass s.1 == .terminal)).map (fun s => (s.1, s.2.1, s.2.2.map (·.steps))) =
+      [("RET", "Return", [[.restoreFrame, .incPc], [.incPc]]), ("RETD", "ReturnData", [[.restoreFrame, .incPc], [.incPc]]),
+       ("RVRT", "Revert", [[]]), ("CALL", "Proceed", [[.assign "code_start"]])] := by
+  decide +kernel
+
+/-- only ECAL involves code outside the crate or a compile-time guard: its exits are `handler; inc_pc` under
+`INC_PC = true` (the trait default) and `handler` alone otherwise -/
+theorem only_ecal_has_handler :
+    (pcSites.filter (fun s => s.2.2.any (fun e => e.steps.any (·.isHandler) || !e.guards.isEmpty))).map
+        (fun s => (s.1, s.2.2.map (fun e => (e.steps, e.guards)))) =
+      [("ECAL", [([.handler "Ecal::ecal", .incPc], [("Ecal::INC_PC", true)]), ([.handler "Ecal::ecal"], [("Ecal::INC_PC", false)])])] ∧
+    constDefaults = [("Ecal::INC_PC", true)] := by
+  decide +kernel
+
+/-- **the list of `$pc` writes is closed**: every textual write of `$pc` in the non-test sources of fuel-vm is either
+the last update of a recorded exit of some instruction (or lies in the function chain leading to it), or belongs to
+VM initialisation / `inc_pc` itself -/
+theorem pc_write_sites_closed :
+    pcWriteSites.all (fun w => (pcSites.flatMap exitOwners).contains w.2.1 || nonInstructionPcWriters.contains w.2.1) = true := by
+  decide +kernel
+
+theorem runPcSteps_advancing {e : PcExit} (h : e.isAdvancing = true) (pc : Nat) (hpc : pc + 4 < 2 ^ 64) :
+    runPcSteps e.ownSteps pc = some (pc + 4) ∧ e.steps.getLast? = some .incPc := by
+  simp only [PcExit.isAdvancing, Bool.and_eq_true, beq_iff_eq] at h
+  refine ⟨?_, h.2⟩
+  rw [h.1]
+  simp [runPcSteps, PcStep.run, satAdd, instrSize, hpc]
+
+/-- **every non-jump, non-terminal opcode of the generated table**: its implementation returns `Proceed`, has at least
+one reachable success exit, and on EVERY reachable success exit the last `$pc` update is `inc_pc` and the net effect
+of the implementation's own updates is `$pc + 4` (a foreign ECAL handler is assumed not to move `$pc`) -/
+theorem advancing_opcode_ends_in_inc_pc (row : InstrRow) (hrow : row ∈ instrTable) (hadv : pcClass row.name = .advancing) :
+    ∃ s ∈ pcSites, s.1 = row.name ∧ s.2.1 = "Proceed" ∧ enabledExits s ≠ [] ∧
+      ∀ e ∈ enabledExits s, e.steps.getLast? = some .incPc ∧
+        ∀ pc, pc + 4 < 2 ^ 64 → runPcSteps e.ownSteps pc = some (pc + 4) := by
+  have hcov := pc_sites_cover_table.2.2.1
+  rw [List.all_eq_true] at hcov
+  have h1 := hcov row hrow
+  simp only [Bool.and_eq_true, beq_iff_eq] at h1
+  have hne : pcSites.filter (fun s => s.1 == row.name) ≠ [] := by
+    intro h; rw [h] at h1; simp at h1
+  obtain ⟨s, hs⟩ := List.exists_mem_of_ne_nil _ hne
+  obtain ⟨hsm, hsn⟩ := List.mem_filter.mp hs
+  have hsn' : s.1 = row.name := by simpa using hsn
+  have hcl := pc_sites_by_class.1
+  rw [List.all_eq_true] at hcl
+  have h2 := hcl s hsm
+  simp only [hsn', hadv, beq_self_eq_true, forall_const, Bool.and_eq_true, beq_iff_eq, Bool.not_eq_true',
+    List.isEmpty_eq_false_iff, List.all_eq_true, decide_eq_true_eq] at h2
+  refine ⟨s, hsm, hsn', h2.1.1, h2.1.2, fun e he => ?_⟩
+  have := h2.2 e he
+  exact ⟨(runPcSteps_advancing this 0 (by decide)).2, fun pc hpc => (runPcSteps_advancing this pc hpc).1⟩
+
+/-- the same for all opcodes: each has exactly the exit shape of its specification class -/
+theorem every_opcode_pc_discipline (row : InstrRow) (hrow : row ∈ instrTable) :
+    ∃ s ∈ pcSites, s.1 = row.name ∧ siteShape s = some (expectedShape row.name) := by
+  have hcov := pc_sites_cover_table.2.2.1
+  rw [List.all_eq_true] at hcov
+  have h1 := hcov row hrow
+  simp only [Bool.and_eq_true, beq_iff_eq] at h1
+  have hne : pcSites.filter (fun s => s.1 == row.name) ≠ [] := by
+    intro h; rw [h] at h1; simp at h1
+  obtain ⟨s, hs⟩ := List.exists_mem_of_ne_nil _ hne
+  obtain ⟨hsm, hsn⟩ := List.mem_filter.mp hs
+  have hsn' : s.1 = row.name := by simpa using hsn
+  have hsh := pc_sites_shape
+  rw [List.all_eq_true] at hsh
+  have := hsh s hsm
+  rw [hsn'] at this
+  exact ⟨s, hsm, hsn', by simpa using this⟩
+
 /-! ### non-vacuity -/
 
 def exJ : Regs := fun i => if i = 3 then 400 else if i = 12 then 100 else if i = 16 then 7 else if i = 17 then 7 else if i = 18 then 3 else 0
@@ -267,5 +380,12 @@ example : (execJump .JMP [16] (exJ.set 16 (2 ^ 62))).2 = some .MemoryOverflow :=
 example : (execJump .JAL [20, 16, 2] exJ).1 20 = 404 ∧ (execJump .JAL [20, 16, 2] exJ).1 regPC = 15 := by decide
 example : (execJump .JAL [5, 16, 2] exJ).2 = some .ReservedRegisterNotWritable := by decide
 example : exJ regPC < vmMaxRam := by decide
+-- the static table is not vacuous: ADD is advancing through `alu_capture_overflow`, LDC has three helpers
+example : (pcSites.filter (fun s => s.1 == "ADD")).map (fun s => s.2.2.map (·.via)) =
+    [[["Interpreter::alu_capture_overflow", "alu_capture_overflow"]]] := by decide +kernel
+example : (pcSites.filter (fun s => s.1 == "LDC")).map (fun s => s.2.2.length) = [3] := by decide +kernel
+example : siteShape ("X", "Proceed", [⟨[], [], [], []⟩]) = none := by decide                       -- no `inc_pc`: rejected
+example : siteShape ("X", "Proceed", [⟨[.incPc, .incPc], [], [], []⟩]) = none := by decide           -- two updates: rejected
+example : siteShape ("X", "Proceed", [⟨[.incPc], [], [], []⟩, ⟨[], [], [], []⟩]) = none := by decide  -- one exit without
 
 end FuelVerif.Alu
